@@ -13,8 +13,16 @@ from harness.props import c03
 
 BRIDGE = ('Gemato.Bridge.Cli', 'Gemato.Bridge.SrcCli', 'Gemato.Bridge.SrcUpdate', 'Gemato.Bridge.SrcVerify')
 PROPS = ['Gemato.Props.C11']
-ZONES = ['UTC0', 'JST-9', 'EST5', '<+14>-14', '<-11>11']
-T0 = 1600000000          # 2020-09-13T12:26:40Z
+ZONES = ['UTC0', 'JST-9', 'EST5', '<+14>-14', '<-11>11',
+         # zones with daylight-saving rules (POSIX TZ strings: no tzdata needed), northern and southern
+         'CET-1CEST,M3.5.0,M10.5.0/3', 'EST5EDT,M3.2.0,M11.1.0', 'AEST-10AEDT,M10.1.0,M4.1.0/3']
+# starting instants: summer and winter (either side of the DST rules), and within the hour around a DST switch
+STARTS = [1600000000,        # 2020-09-13T12:26:40Z
+          1610712000,        # 2021-01-15T12:00:00Z
+          1603585800,        # 2020-10-25T00:30:00Z  (CEST ends 01:00Z)
+          1585443540,        # 2020-03-29T00:59:00Z  (CEST begins 01:00Z)
+          1604209500,        # 2020-11-01T05:45:00Z  (EDT ends 06:00Z)
+          1601740500]        # 2020-10-03T15:55:00Z  (AEDT begins 16:00Z)
 
 
 class Clock:
@@ -89,6 +97,7 @@ def one_history(ctx, drv):
     a = common.scratch_dir('gv.c11a.')
     b = a + '.full'
     zone = rng.choice(ZONES)
+    T0 = rng.choice(STARTS)
     old_tz = os.environ.get('TZ')
     try:
         set_tz(zone)
@@ -163,8 +172,9 @@ def one_history(ctx, drv):
             rc_b = cli(['update', '-H', hashes, b], clk_b)
             after = updimpl.snapshot(a)
             scen = {'op': 'history', 'zone': zone, 'round': rnd, 'ops': ops, 'prev_timestamp': prev_ts, 'now': now, 'qualifies': qualifies,
-                    'hashes': hashes}
+                    'hashes': hashes, 'start': T0}
             ctx.count('zone:' + zone)
+            ctx.count('start:%d' % T0)
             for o_ in ops:
                 ctx.count('op:%s/%s' % o_)
             ctx.case(json.dumps([scen, sorted(files)]), True, dict(scen, exit=[rc_a, rc_b]))
@@ -234,7 +244,8 @@ def one_history(ctx, drv):
 def run(ctx):
     ctx.rule = ('histories of 1-4 (thorough: 1-6) rounds of 1-4 file operations (modify same size / other size, add, delete, touch) '
                 'with explicitly set mtimes older than / equal to / newer than (by seconds or hours) the previous TIMESTAMP, replayed on '
-                'two replicas (gemato update --incremental vs full) under TZ in {UTC, UTC+9, UTC-5, UTC+14, UTC-11}; the clock of '
+                'two replicas (gemato update --incremental vs full) under TZ in {UTC, UTC+9, UTC-5, UTC+14, UTC-11, and three zones with '
+                'daylight-saving rules: CET/CEST, EST/EDT, AEST/AEDT}, starting in summer, in winter and minutes before a DST switch; the clock of '
                 'gemato.cli is controlled and advances during the scan; a modification injected right after a file was hashed. Oracle: '
                 'Manifests equal modulo TIMESTAMP whenever every same-size modification ended newer than the previous TIMESTAMP; '
                 'TIMESTAMP <= scan start; the injected change is repaired by the next incremental run; model correspondence.')
